@@ -211,6 +211,14 @@ func (p *Party) RespondStream(id string, rd io.Reader, logged []byte) *Resp {
 	return p.Call("response", "POST", rtBase+"/invocation/"+id+"/response", map[string]string{"__id": id, "__x_upload": "slow"}, logged)
 }
 
+// ErrorStream is RespondStream for the /error route.
+func (p *Party) ErrorStream(id string, rd io.Reader, logged []byte) *Resp {
+	p.mu.Lock()
+	p.stream = rd
+	p.mu.Unlock()
+	return p.Call("error", "POST", rtBase+"/invocation/"+id+"/error", map[string]string{"__id": id, "__x_upload": "slow", "Lambda-Runtime-Function-Error-Type": "Function.SlowUpload"}, logged)
+}
+
 func (p *Party) Error(id string, body []byte, hdr map[string]string) *Resp {
 	h := map[string]string{"__id": id}
 	for k, v := range hdr {
